@@ -473,6 +473,8 @@ fn verdict_cases(cw: &mut CaseWriter, seed: u64, n: usize) {
     }
 }
 
+static HANGS: std::sync::atomic::AtomicUsize = std::sync::atomic::AtomicUsize::new(0);
+
 pub fn run(args: &Args) -> i32 {
     if args.extra.contains_key("worker") {
         return worker(args);
@@ -559,8 +561,19 @@ pub fn run(args: &Args) -> i32 {
                         }
                         Err(mpsc::RecvTimeoutError::Timeout) => {
                             if let Some(k) = current {
-                                // a busy machine can starve a worker for 20 s: the case is a hang only if it also exceeds 3 minutes on its own
+                                // a busy machine can starve a worker for 20 s: the case is a hang only if it also exceeds a minute on its own
+                                // (after three confirmed hangs later expiries are reported at once; after 40 the chunk is given up)
                                 let _ = child.kill();
+                                let seen = HANGS.fetch_add(1, std::sync::atomic::Ordering::SeqCst);
+                                if seen >= 3 {
+                                    tx.send((fi, k, "timeout".into())).ok();
+                                    if seen >= 40 {
+                                        finished = true;
+                                    } else {
+                                        from = k + 1;
+                                    }
+                                    break;
+                                }
                                 let alone = Command::new(&exe)
                                     .args(["c19", "--worker", "1", "--file", &fi.to_string(), "--from", &k.to_string(), "--to", &(k + 1).to_string(), "--stride", "1",
                                            "--offset", "0", "--tmp", &tmp.to_string_lossy(), "--gen", &gen_dir.to_string_lossy()])
@@ -578,7 +591,7 @@ pub fn run(args: &Args) -> i32 {
                                             }
                                         }
                                     });
-                                    let deadline = std::time::Instant::now() + Duration::from_secs(180);
+                                    let deadline = std::time::Instant::now() + Duration::from_secs(60);
                                     while let Ok(l) = r2.recv_timeout(deadline.saturating_duration_since(std::time::Instant::now())) {
                                         if let Some(r) = l.strip_prefix("C19 DONE ") {
                                             if let Some((_, o)) = r.split_once('\t') {
@@ -592,6 +605,9 @@ pub fn run(args: &Args) -> i32 {
                                     }
                                     let _ = c2.kill();
                                     let _ = c2.wait();
+                                }
+                                if verdict != "timeout" {
+                                    HANGS.fetch_sub(1, std::sync::atomic::Ordering::SeqCst);
                                 }
                                 tx.send((fi, k, verdict)).ok();
                                 from = k + 1;
